@@ -823,7 +823,7 @@ META = dict(
 )
 
 MANIFEST = dict(
-    text="For C04: the real Debump.set_dihedral_angle on real residues (every listed residue x chain position x reference dihedral) with ALL atom coordinates, the rotation angle and the axis symbolic: each atom is proved either fixed or moved by the single right-handed Rodrigues rotation about the axis bond (polynomial identities), Rodrigues is a proper rotation (lemma), and the finite bond-graph condition (no backbone/cap atom moves; every moved-fixed bond ends on the axis) then gives unchanged bond lengths/angles for all coordinates and angles; violations of the finite condition are replayed concretely; repeated with the residue's atom records listed alphabetically / reversed in the input, and with a Debump object that already served a pass before hydrogens were added. Option gating (--clean/--assign-only/--nodebump/--noopt) on the real driver over symbolic options; census of coordinate writers.",
+    text="For C04: the real Debump.set_dihedral_angle on real residues (every listed residue x chain position x reference dihedral) with ALL atom coordinates, the rotation angle and the axis symbolic: each atom is proved either fixed or moved by the single right-handed Rodrigues rotation about the axis bond (polynomial identities), Rodrigues is a proper rotation (lemma), and the finite bond-graph condition (no backbone/cap atom moves; every moved-fixed bond ends on the axis) then gives unchanged bond lengths/angles for all coordinates and angles; violations of the finite condition are replayed concretely; repeated with the residue's atom records listed alphabetically / reversed in the input, and with a Debump object that already served a pass before hydrogens were added. Option gating (--clean/--assign-only/--nodebump/--noopt) on the real driver over symbolic options; census of coordinate writers. Round 4: with debumping and optimisation off every input heavy atom is in the final model at its input coordinates, also under alternate atom spellings (ILE CD, OT1/OT2), other listing orders and rebuilt neighbours (selectors).",
     note="Trusted: z3, exact reals, cos/sin abstracted to the unit circle, template bond graph. Flips and the debump search are outside. Known findings: terminal cap atoms and a few branch atoms are ranked like side-chain atoms by set_reference_distance/get_moveable_names and rotate with the wrong bond (known_findings.json).",
     technique="polynomial identities over terms from the real code decided by z3 + finite graph condition; symbolic execution of the driver for gating",
     design="DESIGN.md section 3 C04",
